@@ -12,7 +12,7 @@ VIEW = ["bip", FLAGS, do_import, import_mol_attr]          FLAGS = dict sp rp bv
        ["parse", [text, ...], default_rule, parse_rule_from_suffix, prefer_suffix]   rxns_to_hypergraph
 
 case = {"kind": "sg-edit", "net": NET, "views": [], "sviews": [[include_mol, SDROPS, import_mol_attr, default_rule], ...]}   (round 5)
-       the same for the species graph (SDROPS = dict label kind mol rules maps legacy)
+       the same for the species graph (SDROPS = dict label kind mol rules rmap pmap legr legp)
 case = {"kind": "bip-edit", "net": NET, "views": [], "dviews": [[FLAGS, DROPS, import_mol_attr, IMPORT_OPTS], ...]}   (round 5)
        export, then the caller DELETES attributes from the exported graph (DROPS = dict ksp krx lsp lrx st ro mol mk: kind / label on
        species / reaction nodes, stoich / role on arcs, mol / bipartite marker on nodes), then import with IMPORT_OPTS = dict isp irp dr
@@ -479,7 +479,7 @@ def _run_dview(H, dv, ret):
         out.append([2])
     return out
 
-SDROP_KEYS = ["label", "kind", "mol", "rules", "maps", "legacy"]
+SDROP_KEYS = ["label", "kind", "mol", "rules", "rmap", "pmap", "legr", "legp"]
 
 
 def sdrops(**kw):
@@ -496,19 +496,23 @@ def _apply_sdrops(G, d):
     for _, _, ed in G.edges(data=True):
         if d["rules"]:
             ed.pop("rules", None)
-        if d["maps"]:
-            ed.pop("stoich_r_map", None)
-            ed.pop("stoich_p_map", None)
-        if d["legacy"]:
-            ed.pop("stoich_r", None)
-            ed.pop("stoich_p", None)
+        for k, a in (("rmap", "stoich_r_map"), ("pmap", "stoich_p_map"), ("legr", "stoich_r"), ("legp", "stoich_p")):
+            if d[k]:
+                ed.pop(a, None)
+        # representation variants the importer accepts and the model identifies (a graph that went through a serialiser):
+        # `via` as a sorted list / tuple instead of a set, a singleton `rules` set as the bare rule name
+        if d.get("vl") and "via" in ed:
+            ed["via"] = sorted(ed["via"]) if d["vl"] == 1 else tuple(sorted(ed["via"]))
+        if d.get("rs") and len(ed.get("rules", ())) == 1:
+            ed["rules"] = next(iter(ed["rules"]))
     return G
 
 
 def _sg_obs_edited(G):
     """an absent rule set / map / legacy value is what the importer reads it as: empty set, empty map, 1 (see model/C16_Edit.v)"""
     nodes = [[n, _opt(d, "label"), _opt(d, "kind"), _optmol(d)] for n, d in G.nodes(data=True)]
-    arcs = [[u, v, S(sorted(d["via"])), S(sorted(d.get("rules", ()))), int(d.get("stoich_r", 1)), int(d.get("stoich_p", 1)),
+    arcs = [[u, v, S(sorted(d["via"])), S(sorted([d["rules"]] if isinstance(d.get("rules"), str) else d.get("rules", ()))),
+             int(d.get("stoich_r", 1)), int(d.get("stoich_p", 1)),
              {k: int(c) for k, c in d.get("stoich_r_map", {}).items()}, {k: int(c) for k, c in d.get("stoich_p_map", {}).items()}]
             for u, v, d in G.edges(data=True)]
     return [S(nodes), S(arcs)]
@@ -541,7 +545,7 @@ def _run_sview(H, sv, ret):
     merged = {}
     for _, _, ed in G.edges(data=True):
         for e in ed["via"]:
-            merged.setdefault(e, set()).update(ed.get("rules", ()))
+            merged.setdefault(e, set()).update([ed["rules"]] if isinstance(ed.get("rules"), str) else ed.get("rules", ()))
 
     def rule_of(eid, e):
         u = merged.get(eid, set())
@@ -831,7 +835,7 @@ def oracle(case):
         for sv in case["sviews"]:
             _run_sview(H, sv, [])
         fails = [] if _edges_of(H) == edges else [dict(clause="source-network-changed", detail="collapse / edited import changed the exported network")]
-        plain = [["sg", sv[0], sv[2], dict(dr=sv[3], rename=False)] for sv in case["sviews"] if not any(sv[1].values())]
+        plain = [["sg", sv[0], sv[2], dict(dr=sv[3], rename=False)] for sv in case["sviews"] if not any(sv[1].values())]   # vl/rs count as edits
         return (fails + _oracle_batch(net, (), plain, None, False, ""))[:6]
     if "dviews" in case:
         # edited graphs: the property speaks about the graph as exported, so only the entries WITHOUT deletions are judged as
@@ -1284,8 +1288,11 @@ def _gen_cases(tier, rng):
                 d = sdrops()
             elif z < 0.6:
                 d = sdrops(**{rng.choice(SDROP_KEYS): True})
+            elif z < 0.75:                                   # the legacy format: no per-reaction maps
+                d = sdrops(rmap=True, pmap=True, legr=rng.random() < 0.2, legp=rng.random() < 0.2, rules=rng.random() < 0.3)
             else:
                 d = {k: rng.random() < 0.4 for k in SDROP_KEYS}
+            d = dict(d, vl=rng.choice([0, 0, 1, 2]), rs=rng.random() < 0.3)
             svs.append([rng.random() < 0.7, d, rng.random() < 0.8, rng.choice(["r", "r", "zz", ""])])
         cases.append(dict(kind="sg-edit", net=net, views=[], sviews=svs, hist=(t % 4 == 3)))
     # ---- wrappers / facades of the converters: _as_bipartite (own defaults: integer ids), _as_species_graph, _CRNGraphBackend
@@ -1392,7 +1399,9 @@ LEVEL_TEXT = ("Machine-checked proof (Coq, axiom-free) over an executable model 
               "without coefficients exactly the supports come back), C16_bipartite_roundtrip_edited / C16_untagged_default_prefixes (the round trip "
               "survives the deletion of every attribute the importer can re-derive - kind from the id prefixes, label from the node id / default rule, "
               "mol, marker - with each premise shown necessary) and C16_species_graph_roundtrip_edited (ids and coefficients come back from via + "
-              "per-reaction maps alone). The model is tied to the Python code by comparing, on every run, the "
+              "per-reaction maps alone) / C16_species_graph_roundtrip_legacy (without the maps: from the legacy per-arc values when the reactions of "
+              "every shared arc agree); C16_built_networks_consistent (every network an importer or the parser builds, from any graph / any text, satisfies the "
+              "store invariant of C15, also when the call raises midway). The model is tied to the Python code by comparing, on every run, the "
               "intermediate view (all nodes, arcs and attributes, or the printed lines) and the reconstructed network for thousands of "
               "generated networks and flag combinations (exhaustive small scope + random + adversarial + fuzzed parser input), including "
               "HISTORIES: repeated round trips on one shared network object while the caller edits, in place, every result it was handed, "
